@@ -81,7 +81,7 @@ class Renderer:
     def __init__(self, f, probes):
         self.f = f
         self.lines = []
-        self.tag = 1000
+        self.tag = 1000 + 1000 * int(f["path"][1:-6])      # extension tags are unique in the whole compile
         self.probes = probes
         self.pinfo = []          # per probe: line, fallback, fqn, kind of the symbol it adds
         self.h = "." + helper_of(f)
@@ -350,7 +350,7 @@ def corpus():
                  {"path": [], "site": "extendee", "spelling": "x"}]))
     # a type named like the last package component, declared without package
     out.append(([{"path": "f0.proto", "pkg": "a.b", "imports": [("f1.proto", False)], "elems": [("message", "M", [])]},
-                 {"path": "f1.proto", "pkg": "", "imports": [], "elems": [("message", "b", []), ("enum", "a", ["V"])]}],
+                 {"path": "f1.proto", "pkg": "", "imports": [], "elems": [("message", "b", []), ("enum", "c", ["V"])]}],
                 [{"path": ["M"], "site": "type", "spelling": "b"},
                  {"path": ["M"], "site": "type", "spelling": "a"},
                  {"path": ["M"], "site": "type", "spelling": "a.b"},
@@ -368,18 +368,34 @@ def corpus():
     return out
 
 
+class Interner:
+    """names of one group become constants z<i> (elaborating a string literal costs about 1.4 ms)."""
+
+    def __init__(self, tag):
+        self.tag = tag
+        self.ix = {}
+
+    def __call__(self, sx):
+        if sx not in self.ix:
+            self.ix[sx] = len(self.ix)
+        return "%sz%d" % (self.tag, self.ix[sx])
+
+    def defs(self):
+        return "".join('Definition %sz%d := s "%s".\n' % (self.tag, i, sx) for sx, i in self.ix.items())
+
+
 def coq_str(sx):
     return '(s "%s")' % sx
 
 
-def coq_universe(vis):
+def coq_universe(vis, coq_str=coq_str):
     fs = []
     for f, syms in vis:
         fs.append("(mkFile %s [%s])" % (coq_str(f["pkg"]), "; ".join("(%s, %s)" % (coq_str(n), KINDS[k]) for n, k in syms)))
     return "(mkU %s [%s])" % (fs[0], "; ".join(fs[1:]))
 
 
-def coq_gres(o):
+def coq_gres(o, coq_str=coq_str):
     if o["r"] == "nil":
         return "GNil"
     if o["r"] == "sentinel":
@@ -387,14 +403,15 @@ def coq_gres(o):
     return "(GDesc %s %s)" % (coq_str(o["n"]), KINDS[o["k"]])
 
 
-HEADER = ("From Coq Require Import List NArith Bool String Ascii.\nImport ListNotations.\n"
+HEADER = ("From Coq Require Import List NArith Bool String Ascii DecimalString.\nImport ListNotations.\n"
           "From PV Require Import Common.Corr Model.Resolve Model.ProtocLookup.\n"
-          "Definition s (x : string) : name := map N_of_ascii (list_ascii_of_string x).\n")
+          "Definition s (x : string) : name := map N_of_ascii (list_ascii_of_string x).\n"
+          'Definition zp (i : nat) : name := s "zp" ++ s (NilEmpty.string_of_uint (Nat.to_uint i)).\n')
 
 
 def coq_eval_groups(name, groups, per_shard, timeout=1500):
-    """groups: list of (universe term, [ref_case terms without the universe]).  Returns per group
-    (model mismatch indices, spec mismatch indices, wf bool) evaluated by vm_compute in coqc."""
+    """groups: list of (definitions text, universe term, [ref_case terms without the universe]).  Returns
+    per group (model mismatch indices, spec mismatch indices, wf bool) evaluated by vm_compute in coqc."""
     os.makedirs(os.path.join(COQ, "cases"), exist_ok=True)
     shards, cur, n = [], [], 0
     for gi, g in enumerate(groups):
@@ -411,12 +428,13 @@ def coq_eval_groups(name, groups, per_shard, timeout=1500):
         with open(fn, "w") as f:
             f.write(HEADER)
             for gi in gis:
-                u, terms = groups[gi]
-                f.write("Definition U%d := Eval vm_compute in %s.\n" % (gi, u))
+                defs, u, terms = groups[gi]
+                f.write(defs)
+                f.write("Definition U%d := %s.\n" % (gi, u))
                 f.write("Definition cs%d := [\n%s\n].\n" % (gi, ";\n".join("RC U%d %s" % (gi, t) for t in terms)))
                 f.write("Definition M%d := Eval vm_compute in mismatches ref_chk_model cs%d.\nPrint M%d.\n" % (gi, gi, gi))
                 f.write("Definition S%d := Eval vm_compute in mismatches ref_chk_spec cs%d.\nPrint S%d.\n" % (gi, gi, gi))
-                f.write("Definition W%d := Eval vm_compute in forallb ref_chk_wf cs%d.\nPrint W%d.\n" % (gi, gi, gi))
+                f.write("Definition W%d := Eval vm_compute in (wf_universe U%d && forallb ref_chk_scope cs%d).\nPrint W%d.\n" % (gi, gi, gi, gi))
         procs.append((k, fn, gis))
     res = {}
     err = None
@@ -505,7 +523,7 @@ def run(ctx):
     cases = []
     for files, probes in corpus():
         cases.append((files, probes, "corpus"))
-    for sid in range(ctx.budget(110, 3000)):
+    for sid in range(ctx.budget(int(os.environ.get("C15N","110")), 3000)):
         files = gen_schema(rng, sid)
         cases.append((files, gen_probes(rng, files, files[0], ctx.budget(160, 400)), "random"))
     ins, infos = [], []
@@ -542,6 +560,7 @@ def run(ctx):
                 syms = syms + [(fq, kd) for pi, ln, fb, fq, kd in pin]
             vis.append((f, syms))
         terms, tm = [], []
+        S = Interner("g%d" % len(groups))
         for (pi, ln, fb, fq, kd), ob in zip(pin, o["res"]):
             pr = probes[pi]
             ctx.count((ci, origin, pr["path"], pr["site"], pr["spelling"], tuple(sorted(i["files"].items()))),
@@ -552,11 +571,12 @@ def run(ctx):
             if ob.get("dot") is False:
                 ctx.violation("reference-not-rewritten", "a resolved reference was not rewritten to its fully-qualified form",
                               {"files": i["files"], "probe": pr, "observed": ob})
-            terms.append("[%s] %s %s %s %s" % ("; ".join(coq_str(m) for m in pr["path"]), coq_str("zp%d" % pi),
-                                               coq_str(pr["spelling"]), coq_bool(pr["site"] == "type"), coq_gres(ob)))
+            terms.append("[%s] (zp %d) %s %s %s" % ("; ".join(S(m) for m in pr["path"]), pi,
+                                                 S(pr["spelling"]), coq_bool(pr["site"] == "type"), coq_gres(ob, S)))
             tm.append((pr, ob, fq))
         if terms:
-            groups.append((coq_universe(vis), terms))
+            u = coq_universe(vis, S)
+            groups.append((S.defs(), u, terms))
             gmeta.append((files, i, vis, tm))
     if cases:
         ctx.sample({"files": ins[0]["files"], "probes": [dict(p) for p in cases[0][1][:3]]})
@@ -593,7 +613,7 @@ def run(ctx):
         ctx.count(("raw", p, r), True, "rawref")
         f = {"pkg": p}
         u = coq_universe([(f, [(q(p, "T"), "message"), (q(p, "Holder"), "message"), (q(q(p, "Holder"), "f"), "field")])])
-        groups.append((u, ['[%s] %s %s true %s' % (coq_str("Holder"), coq_str("f"), coq_str(r), coq_gres(o))]))
+        groups.append(("", u, ['[%s] %s %s true %s' % (coq_str("Holder"), coq_str("f"), coq_str(r), coq_gres(o))]))
         rmeta.append(((p, r), o))
     res, err = coq_eval_groups("cases_C15r", groups, per_shard=1000)
     if err:
